@@ -19,6 +19,7 @@ found has a counter-example theorem whose witness is replayed by the L3 oracle.
 * `pax_total`               `llc.activate` on any general bytes: activated or `False`, never an exception
 * `t3emu_total_partial`     `process_command` on any command, tagtool's callbacks: response / `None`
                             (partial: `KeyError`/`ValueError` of the transcription are not excluded by proof)
+* `dispatch_total`          `dispatch` of any PDU on any well-formed SAP table: no exception, table stays well formed
 * `linkloop_never_waits`    `dispatch` of any PDU (aggregates included) on any SAP table never reaches
                             a wait on the link-loop thread
 * `peer_bytes_flow`         every exception the decoders can raise ends the run loop through
@@ -123,11 +124,21 @@ theorem linkloop_never_waits (f : Fix) (hf : f.f39 = true) (w : Llc) (p : Pdu.Pd
     dispatch f w p ≠ .ok none :=
   Peer.dispatch_never_waits f hf w p
 
+/-- `dispatch` (repaired) of ANY PDU whose DSAP fields are SAP numbers (`PduOk`: true of every decoded
+PDU, the field is six bits wide - the tie runs this model on the decoded octets) against any
+well-formed table: no exception, no wait, and the table stays well formed - so the statement
+extends to every sequence of received PDUs. -/
+theorem dispatch_total (f : Fix) (hf : f.f39 = true) (w : Llc) (hw : LlcOk w) (p : Pdu.Pdu) (hp : PduOk p) :
+    ∃ w', dispatch f w p = .ok (some w') ∧ LlcOk w' :=
+  Peer.dispatch_total f hf w hw p hp
+
 /-- the established data link connection of the witness -/
 def estab36 : Sock := ⟨.dlc, .established, 36, some 32, true, 0, 2, 128, 0, 0, 0, 0, []⟩
 
 def world36 : Llc :=
   ⟨((List.replicate 64 Entry.empty).set 1 (.sdp [] 0)).set 36 (.sap ⟨[estab36], []⟩), []⟩
+
+example : LlcOk world36 := ⟨by decide, ⟨[], 0, by decide⟩, by intro e he; cases he⟩
 
 example : dispatch Fix.repaired world36 (.simple (.ui 36 32 [])) ≠ .ok none :=
   linkloop_never_waits _ rfl _ _
